@@ -1259,7 +1259,11 @@ class C13(Prop):
                 "labels within 253 bytes, type, class IN, TTL, a data length equal to the length of the data that follows "
                 "(C13_result_well_formed); the data of each builder is characterised: names label by label for NS/CNAME/PTR/MX/SOA, TXT as "
                 "character-strings concatenating to the text, all but the last of exactly 255 bytes, none empty (C13_txt, C13_name_rr, "
-                "C13_mx, C13_soa). PARTIAL: that the grammar accepts exactly the supported texts and passes the right fields to the "
+                "C13_mx, C13_soa). The insertion clause for records whose data holds no names (A with 4 bytes, AAAA with 16, TXT, DS, any type "
+                "other than NS / CNAME / PTR / MX / SOA / DNAME / OPT): what RR::new returns for an accepted owner text is the pointer-free "
+                "encoding of a record well-formed in every context, with the labels of the text (C13_built_record_is_insertable), and for "
+                "every accepted packet a successful insert_rr of it into the answer, authority or additional section leaves accepted bytes "
+                "with the view of their parse (C13_built_record_inserts, through C09_insert_effect). PARTIAL: that the grammar accepts exactly the supported texts and passes the right fields to the "
                 "builders is decided by the correspondence and the independent encoder oracle, not by a theorem.")
     assumptions = ["input strings are valid UTF-8 (Rust &str); the model works on their bytes",
                    "chomp1-0.3.4 combinators, hex::decode and Ipv6Addr::from_str are reproduced by hand in Model/Text.v (trusted, exercised by the correspondence)"]
